@@ -22,8 +22,10 @@ import (
 	"time"
 
 	"github.com/vimeo/dials"
+	"github.com/vimeo/dials/common"
 	"github.com/vimeo/dials/ptrify"
 	"github.com/vimeo/dials/sourcewrap"
+	"github.com/vimeo/dials/tagformat"
 	"github.com/vimeo/dials/transform"
 
 	"verifharness/internal/coqfmt"
@@ -42,6 +44,9 @@ type input struct {
 	// (palette index PrimeType): 0 not, 1 its Value, 2 its Watch, 3 both
 	Prime     int `json:"prime,omitempty"`
 	PrimeType int `json:"prime_type,omitempty"`
+	// the wrapper is built by tagformat.ReformatDialsTagSource (decoder
+	// DecodeGoTags, encoder index Via-1) instead of sourcewrap.NewTransformingSource
+	Via int `json:"via,omitempty"`
 }
 
 type childResult struct {
@@ -136,6 +141,9 @@ func runCase[T any](in input) childResult {
 	var zero T
 	t0 := reflect.TypeOf(zero)
 	chain, cname := xf.DrawChain(r)
+	if in.Via > 0 {
+		chain, cname = []xf.M{xf.Reformat(common.DialsTagName, 7, in.Via-1)}, "via-ReformatDialsTagSource"
+	}
 	// defaults
 	defaults := new(T)
 	rty.GenValue(r, reflect.ValueOf(defaults).Elem(), rty.VOpts{NilNum: 1, NilDen: 3}, 0)
@@ -166,6 +174,16 @@ func runCase[T any](in input) childResult {
 		innerSrc = &inner.fakeSrc // not a Watcher
 	}
 	wrapped := sourcewrap.NewTransformingSource(innerSrc, xf.Manglers(chain)...)
+	if in.Via > 0 {
+		// the shipped convenience constructor: same chain, and a watching inner
+		// source must stay a watching source
+		wrapped = tagformat.ReformatDialsTagSource(innerSrc, xf.Decoders[7], xf.Encoders[in.Via-1])
+		if _, innerWatches := innerSrc.(dials.Watcher); innerWatches {
+			if _, ok := wrapped.(dials.Watcher); !ok {
+				res.Direct = append(res.Direct, "ReformatDialsTagSource of a watching source is not a Watcher: its updates are lost")
+			}
+		}
+	}
 	if in.Prime != 0 {
 		// transparency: a wrapper that has served another config type behaves
 		// for this one exactly as a fresh wrapper does
@@ -497,6 +515,9 @@ func gen(r *coqfmt.Rng, n int, tier string) []json.RawMessage {
 			inner = 3
 		}
 		c := input{K: "wrap", State: r.U64(), Type: r.Intn(12), Inner: inner, Steps: 1 + r.Intn(5)}
+		if r.Chance(1, 8) {
+			c.Via = 1 + r.Intn(6)
+		}
 		if r.Chance(1, 4) {
 			c.Prime = 1 + r.Intn(3)
 			c.PrimeType = (c.Type + 1 + r.Intn(11)) % 12
@@ -515,7 +536,7 @@ func main() {
 	}
 	driver.Main(driver.Engine{
 		Prop: "C20", CoqImport: "Dials.Check.C20Check", CoqRun: "run_cases",
-		Rule: "twelve static config types (nesting by value and pointer to depth 4, aliases on leaves and struct-typed fields at every level incl. family-specific alias tags, embedded value and pointer structs, []struct / [2]struct / map[string]struct with nested element structs, sets of strings / ints / named strings, named slices and maps, user pointers to scalars / slices / maps, arrays, complex, TextUnmarshaler; two types with a Verify method that rejects part of the update values: pointer and value receiver) (nesting by value/pointer, embedded value/pointer, alias tags on leaves and structs, sets, maps, []struct, [2]struct, durations, named scalars, TextUnmarshaler) x random defaults x a mangler chain from C10's generator (shipped chains, mixed chains, sub-chains) x inner source: static (1/10), failing Value (1/10), watching whose Watch fails (1/10), watching with 1-5 updates (7/10; one update in five is made un-reversible on purpose when the chain allows it: both names of an aliased field set, or an unparsable text, so sequences mix reversible and un-reversible values), each update a random filling of the translated type reported through ReportNewValue or BlockingReportNewValue; the value returned by every (Blocking)ReportNewValue is compared with the model (a blocking report returns the verdict of its own re-stack) and with the natively fed Dials, the View is read immediately after a blocking report returned and again after the update settled; after every step the View is compared with a reference Dials fed the already-unmangled value and with the model (reverse-translate, then stack onto the defaults); one case in four REUSES the wrapper instance: it is first asked for the Value, the Watch or both of ANOTHER config type of the palette and must then behave for the case's type exactly as a fresh wrapper (same model outcome, same reference Dials); non-trivial: watching inner source with >= 2 updates; distinct = distinct PRNG case states; every case runs in a child process",
+		Rule: "twelve static config types (nesting by value and pointer to depth 4, aliases on leaves and struct-typed fields at every level incl. family-specific alias tags, embedded value and pointer structs, []struct / [2]struct / map[string]struct with nested element structs, sets of strings / ints / named strings, named slices and maps, user pointers to scalars / slices / maps, arrays, complex, TextUnmarshaler; two types with a Verify method that rejects part of the update values: pointer and value receiver) (nesting by value/pointer, embedded value/pointer, alias tags on leaves and structs, sets, maps, []struct, [2]struct, durations, named scalars, TextUnmarshaler) x random defaults x a mangler chain from C10's generator (shipped chains, mixed chains, sub-chains) x inner source: static (1/10), failing Value (1/10), watching whose Watch fails (1/10), watching with 1-5 updates (7/10; one update in five is made un-reversible on purpose when the chain allows it: both names of an aliased field set, or an unparsable text, so sequences mix reversible and un-reversible values), each update a random filling of the translated type reported through ReportNewValue or BlockingReportNewValue; the value returned by every (Blocking)ReportNewValue is compared with the model (a blocking report returns the verdict of its own re-stack) and with the natively fed Dials, the View is read immediately after a blocking report returned and again after the update settled; after every step the View is compared with a reference Dials fed the already-unmangled value and with the model (reverse-translate, then stack onto the defaults); one case in eight builds the wrapper with tagformat.ReformatDialsTagSource (DecodeGoTags, each of the six encoders) instead of sourcewrap.NewTransformingSource; one case in four REUSES the wrapper instance: it is first asked for the Value, the Watch or both of ANOTHER config type of the palette and must then behave for the case's type exactly as a fresh wrapper (same model outcome, same reference Dials); non-trivial: watching inner source with >= 2 updates; distinct = distinct PRNG case states; every case runs in a child process",
 		Gen:  gen, Run: run,
 	})
 	if cur != nil {
